@@ -179,6 +179,9 @@ func lockKeyOf(p PtrV) string {
 	case PObj:
 		// sync.Mutex is itself a struct: the address is sub:<T.f>(ref)
 		if p.Ref.Op == "app" && strings.HasPrefix(p.Ref.Name, "sub:") {
+			if k, ok := subNames[p.Ref.Name]; ok {
+				return k
+			}
 			return p.Ref.Name[4:]
 		}
 	case PLeaf:
